@@ -225,7 +225,8 @@ def tables():
 def translate(ctx=None) -> Path:
     exprs, el, nel, nel_opt, sections = tables()
     rows = [f"  ({coq_string(c)}, {coq_list(f'({coq_string(n)}, {k})' for n, k in fs)})" for c, fs in exprs]
-    srows = [f"  ({coq_string(kind)}, {shape})  (* {name} *)" for name, kind, shape in sections]
+    srows = [f"  ({coq_string(kind)}, {shape})" for _name, kind, shape in sections]
+    crows = [f"  ({coq_string(name)}, {coq_string(kind)})" for name, kind, _shape in sections]
     out = ["(* GENERATED by harness/translate/c09_exprs.py from /repo/src/_griffe/expressions.py and /repo/src/_griffe/docstrings/models.py -- do not edit *)",
            "From Coq Require Import List String.", "Import ListNotations.", "Open Scope string_scope.", "Open Scope list_scope.", "",
            "(* declared shape of an expression field: one value (str / bool / None / an expression) or a sequence of them *)",
@@ -239,11 +240,9 @@ def translate(ctx=None) -> Path:
            f"Definition named_element_keys : list string := {coq_list(coq_string(k) for k in nel)}.",
            f"Definition named_element_optional_keys : list string := {coq_list(coq_string(k) for k in nel_opt)}.", "",
            "(* section kind value -> shape of the section's value (one row per DocstringSection class) *)",
-           "Definition section_table : list (string * skind) :=", "[" + ";\n".join(r.lstrip() if i == 0 else r for i, r in enumerate(srows)) + "].", ""]
-    # comments must not hide a separator: put the class names in a trailing comment block instead
-    srows2 = [f"  ({coq_string(kind)}, {shape})" for _name, kind, shape in sections]
-    out[-2] = "[" + ";\n".join(srows2).lstrip() + "]."
-    out.insert(-1, "(* classes, in this order: " + " ".join(name for name, _k, _s in sections) + " *)")
+           "Definition section_table : list (string * skind) :=", "[" + ";\n".join(srows).lstrip() + "].", "",
+           "(* section class -> its kind value *)",
+           "Definition section_classes : list (string * string) :=", "[" + ";\n".join(crows).lstrip() + "].", ""]
     p = VERIF / "coq/Gen/C09_exprs.v"
     text = "\n".join(out)
     if not p.exists() or p.read_text() != text:
